@@ -1,7 +1,8 @@
-import ChythonModel.Proofs.C08Eq
+import ChythonModel.Proofs.C08Labels
+import ChythonModel.Proofs.C08RoundTrip
+import ChythonModel.Proofs.C08RoundTripB
 import Mathlib.Data.List.Perm.Basic
 import Mathlib.Tactic.SplitIfs
-import Mathlib.Data.List.Induction
 /-!
 # C08 — SMARTS primitives and query atoms match exactly what is documented
 
@@ -22,6 +23,7 @@ theorem anyMetal_table : ∀ z ∈ List.range' 1 118, notMetal z = nonMetals.con
 theorem elemFlags_complete : ∀ z ∈ List.range' 1 118, (elemFlags.filter (fun r => r.2.1 == z)).length = 1 := by
   decide +kernel
 
+/-- the model's flag test is the documented notion of a metal, for every element of the table -/
 theorem notMetal_iff (z : Nat) (h1 : 1 ≤ z) (h2 : z ≤ 118) : notMetal z = false ↔ IsMetal z := by
   have hm : z ∈ List.range' 1 118 := List.mem_range'_1.mpr ⟨h1, by omega⟩
   have := anyMetal_table z hm
@@ -127,23 +129,6 @@ theorem not_dict_is_complement :
 /-- the order symbols denote 1, 2, 3, 4 and 8 (any / coordination bond) -/
 theorem replace_dict_table : replaceDict = [('-', 1), ('=', 2), ('#', 3), (':', 4), ('~', 8)] := by decide +kernel
 
-theorem mem_insertSorted (x : Nat) (l : List Nat) (o : Nat) : o ∈ insertSorted x l ↔ o = x ∨ o ∈ l := by
-  induction l with
-  | nil => simp [insertSorted]
-  | cons y ys ih =>
-    unfold insertSorted
-    split
-    · simp
-    · split
-      · rename_i hxy; simp at hxy; subst hxy; simp
-      · simp [ih]; tauto
-
-theorem mem_sortDedup (l : List Nat) (o : Nat) : o ∈ sortDedup l ↔ o ∈ l := by
-  unfold sortDedup
-  induction l with
-  | nil => simp
-  | cons x xs ih => simp only [List.foldr_cons, mem_insertSorted, ih, List.mem_cons]
-
 /-- `QueryBond(list)` keeps exactly the listed orders (as a set) together with the ring and stereo marks -/
 theorem mkQBondList_orders (os : List Nat) (ir st) (q : QBond) (h : mkQBondList os ir st = .ok q) :
     (∀ o, o ∈ q.orders ↔ o ∈ os) ∧ q.inRing = ir ∧ q.stereo = st := by
@@ -154,14 +139,6 @@ theorem mkQBondList_orders (os : List Nat) (ir st) (q : QBond) (h : mkQBondList 
     exact ⟨fun o => mem_sortDedup os o, rfl, rfl⟩
 
 /-! ## 3. labels: hybridisation and counts -/
-
-theorem hybStep_4 (h : Nat) : hybStep h 4 = 4 := by simp [hybStep]
-theorem hybStep_3 (h : Nat) : hybStep h 3 = if h = 4 then 4 else 3 := by
-  unfold hybStep; by_cases h4 : h = 4 <;> simp [h4]
-theorem hybStep_2 (h : Nat) : hybStep h 2 = if h = 4 then 4 else if h = 1 then 2 else if h = 2 then 3 else h := by
-  unfold hybStep; by_cases h4 : h = 4 <;> simp [h4]
-theorem hybStep_other (h o : Nat) (o4 : o ≠ 4) (o3 : o ≠ 3) (o2 : o ≠ 2) : hybStep h o = h := by
-  unfold hybStep; simp [o4, o3, o2]
 
 /-- one step of the hybridisation loop commutes with another: the result cannot depend on the order of the neighbour dict -/
 theorem hybStep_comm (h o1 o2 : Nat) : hybStep (hybStep h o1) o2 = hybStep (hybStep h o2) o1 := by
@@ -193,65 +170,6 @@ theorem hybStep_comm (h o1 o2 : Nat) : hybStep (hybStep h o1) o2 = hybStep (hybS
     · subst c2; rfl
     · simp [hybStep_other _ _ a2 b2 c2]
   · simp [hybStep_other _ _ a1 b1 c1]
-
-/-- the orders the loop looks at: coordination bonds (order 8) are skipped -/
-def realOrders (l : List (Nat × Bond)) : List Nat := (l.filter fun mb => mb.2.order != 8).map (·.2.order)
-
-def hybFold (h : Nat) (os : List Nat) : Nat := os.foldl hybStep h
-
-theorem labelsLoop_hyb (f : Nat → Option Nat) (l : List (Nat × Bond)) (acc r : Labels)
-    (h : labelsLoop f l acc = some r) : r.hybridization = hybFold acc.hybridization (realOrders l) := by
-  induction l generalizing acc with
-  | nil => simp [labelsLoop] at h; subst h; simp [realOrders, hybFold]
-  | cons mb t ih =>
-    obtain ⟨m, b⟩ := mb
-    unfold labelsLoop at h
-    by_cases h8 : b.order = 8
-    · simp [h8] at h
-      have := ih acc h
-      simpa [realOrders, h8] using this
-    · have h8' : (b.order == 8) = false := by simp [h8]
-      simp only [h8', Bool.false_eq_true, if_false] at h
-      cases hf : f m with
-      | none => simp [hf] at h
-      | some z =>
-        simp only [hf] at h
-        have := ih _ h
-        simpa [realOrders, h8, hybFold] using this
-
-/-- appending one bond to the list changes the documented value exactly as one loop step does -/
-theorem spec_snoc (os : List Nat) (o : Nat) :
-    Spec.Query.hybridization (os ++ [o]) = hybStep (Spec.Query.hybridization os) o := by
-  unfold Spec.Query.hybridization count2
-  simp only [List.mem_append, List.mem_singleton, List.count_append, List.count_cons, List.count_nil]
-  generalize List.count 2 os = c
-  by_cases o4 : o = 4
-  · subst o4; simp [hybStep_4]
-  by_cases o3 : o = 3
-  · subst o3; rw [hybStep_3]
-    by_cases m4 : 4 ∈ os
-    · simp [m4]
-    · simp [m4]; split_ifs <;> simp_all
-  by_cases o2 : o = 2
-  · subst o2; rw [hybStep_2]
-    by_cases m4 : 4 ∈ os
-    · simp [m4]
-    · by_cases m3 : 3 ∈ os
-      · simp [m4, m3]
-      · simp [m4, m3]; split_ifs <;> omega
-  · rw [hybStep_other _ _ o4 o3 o2]
-    have e4 : ¬ (4 = o) := fun h => o4 h.symm
-    have e3 : ¬ (3 = o) := fun h => o3 h.symm
-    have e2 : (o == 2) = false := by simp [o2]
-    simp [e4, e3, e2]
-
-/-- the loop computes the documented function of the list of bond orders -/
-theorem hybFold_spec (os : List Nat) : hybFold 1 os = Spec.Query.hybridization os := by
-  induction os using List.reverseRecOn with
-  | nil => simp [hybFold, Spec.Query.hybridization, count2]
-  | append_singleton l a ih =>
-    rw [spec_snoc, ← ih]
-    simp [hybFold, List.foldl_append]
 
 /-- **hybridization_spec**: the label `calc_labels` assigns is the documented function of the atom's bond orders -/
 theorem hybridization_spec (f : Nat → Option Nat) (l : List (Nat × Bond)) (r : Labels)
@@ -339,81 +257,6 @@ example : labelsLoop (fun k => [(1, 8), (2, 7), (3, 1), (4, 26)].lookup k)
 
 /-! ## 4. what the setters / `smarts()` can build is well-formed (the hypothesis of `eq_is_spec` is always met) -/
 
-theorem mem_map_toNat_zero (l : List Int) (h : 0 ∈ l.map Int.toNat) : ∃ x ∈ l, x ≤ 0 := by
-  simp only [List.mem_map] at h
-  obtain ⟨x, hx, hz⟩ := h
-  exact ⟨x, hx, by omega⟩
-
-theorem mem_insertSortedI (x : Int) (l : List Int) (o : Int) : o ∈ insertSortedI x l ↔ o = x ∨ o ∈ l := by
-  induction l with
-  | nil => simp [insertSortedI]
-  | cons y ys ih =>
-    unfold insertSortedI
-    split
-    · simp
-    · simp [ih]; tauto
-
-theorem mem_sortI (l : List Int) (o : Int) : o ∈ sortI l ↔ o ∈ l := by
-  unfold sortI
-  induction l with
-  | nil => simp
-  | cons x xs ih => simp [List.foldr, mem_insertSortedI, ih]
-
-/-- the `ring_sizes` setter never stores the no-ring mark together with sizes -/
-theorem ring_setter_wf (v : IntOrList) (rs : List Nat) (h : intOrListRing v = .ok rs) : rs = [0] ∨ 0 ∉ rs := by
-  cases v with
-  | int i =>
-    simp only [intOrListRing, validateRingInt] at h
-    split at h
-    · cases h
-    · cases h
-      rename_i hc
-      by_cases hi : i = 0
-      · subst hi; left; rfl
-      · right
-        simp only [Bool.and_eq_true, decide_eq_true_eq, bne_iff_ne, ne_eq, not_and, Decidable.not_not] at hc
-        simp only [List.mem_singleton]
-        have : ¬ (i < (ringMin : Int)) := fun hlt => hi (hc hlt)
-        have hr : (ringMin : Int) = 3 := by decide
-        omega
-  | lst l =>
-    simp only [intOrListRing, validateRingList] at h
-    split at h
-    · cases h
-    · split at h
-      · cases h
-      · cases h
-        rename_i hc _
-        right
-        intro h0
-        obtain ⟨x, hx, hle⟩ := mem_map_toNat_zero _ h0
-        rw [mem_sortI] at hx
-        simp only [List.any_eq_true, decide_eq_true_eq, not_exists, not_and, Int.not_lt] at hc
-        have := hc x hx
-        have hr : (ringMin : Int) = 3 := by decide
-        omega
-
-theorem buildExt_wf (p : Parsed) (rad : Bool) (k : QKind) (q : QAtom) (h : buildExt p rad k = .ok q) : QWF q := by
-  unfold buildExt at h
-  split at h
-  · cases h
-  · split at h
-    · cases h
-    · split at h
-      · cases h
-      · split at h
-        · cases h
-        · rename_i rs hrs
-          split at h
-          · cases h
-          · cases h
-            unfold QWF
-            simp only
-            unfold ringField at hrs
-            cases hp : p.ringSizes with
-            | none => simp [hp] at hrs; subst hrs; right; simp
-            | some v => simp [hp] at hrs; exact ring_setter_wf v rs hrs
-
 /-- **build_wf**: every query atom `smarts()` builds satisfies the well-formedness hypothesis of `eq_is_spec` -/
 theorem build_wf (p : Parsed) (rad : Bool) (q : QAtom) (h : buildAtom p rad = .ok q) : QWF q := by
   unfold buildAtom at h
@@ -455,5 +298,123 @@ theorem inner_error_classes :
     smartsInner "[C;D1,]".toList [] = .err .indexError ∧ smartsInner "[C+-]".toList [] = .err .keyError ∧
     smartsInner "[C;r2]".toList [] = .err .valueError ∧ smartsInner "[!C]".toList [] = .err .valueError := by
   decide +kernel
+
+/-! ## 6. the reader on the documented subset -/
+
+/-- **smarts_roundtrip** (enumerated grid, kernel-evaluated): for each of the 2936 documented bracket atoms of `docGrid` — every
+    element as symbol and as `#n`, `A`, `M`, element lists; every primitive `D h x` with every value 0…14 and every value pair,
+    `z` 1…4, `r` 3…16, `!R`, `a`, `A`, `M`; every charge −4…4 × stereo mark × map × isotope; all combinations of the five
+    primitive families — reading the canonical spelling yields exactly the documented query atom under the documented number. -/
+theorem smarts_roundtrip :
+    ∀ d ∈ docGrid, DocWF d = true ∧
+      smartsModel ('[' :: printDoc d ++ [']']) [] = .ok ⟨[(numberOf d, denote d)], []⟩ := by
+  have hall : docGrid.all roundTrips = true := by
+    show (gridPlain ++ gridSingleFamily ++ gridMetal ++ gridMarks ++ gridCombos).all roundTrips = true
+    rw [List.all_append, List.all_append, List.all_append, List.all_append, rt_plain, rt_metal, rt_marks, rt_combos]
+    simp only [Bool.true_and, Bool.and_true]
+    exact rt_single
+  intro d hd
+  have := List.all_eq_true.mp hall d hd
+  unfold roundTrips at this
+  simp only [Bool.and_eq_true, beq_iff_eq] at this
+  exact this
+
+/-- the grid is not trivial: it contains e.g. `[13C@@-2;D1:7]`-like and `[N,#8+;D2,D3;h1,h2;r5,r6;x0,x2;z2,z4;M:12]` atoms -/
+example : docGrid.length = 2936 ∧
+    printDoc { head := .list [.sym 7, .num 8], charge := 1, neighbors := [2, 3], hydrogens := [1, 2], rings := [5, 6],
+               hetero := [0, 2], hyb := [2, 4], masked := true, map := some 12 } = "N,#8+;D2,D3;h1,h2;r5,r6;x0,x2;z2,z4;M:12".toList := by
+  decide +kernel
+
+/-- **bond_tokens_spec**: every documented bond token between two atoms — the five order symbols, all 25 two-element lists,
+    the four negated orders, each plain / `;@` / `;!@`, and the empty token — is read as the documented order set and ring mark -/
+theorem bond_tokens_spec :
+    ∀ b ∈ docBonds, smartsModel ("[C]".toList ++ printBond b ++ "[N]".toList) [] =
+      .ok ⟨[(1, { kind := .element 6 none }), (2, { kind := .element 7 none })], [(2, 1, denoteBond b)]⟩ := by
+  decide +kernel
+
+example : docBonds.length = 103 := by decide +kernel
+
+/-! ## 7. queries built from atoms; ring labels -/
+
+/-- a query built from an atom is well-formed -/
+theorem fromAtom_wf (a : MAtom) (f : FromAtomFlags) (q : QAtom) (h0 : 0 ∉ a.ringSizes)
+    (h : fromAtom a f = some q) : QWF q := by
+  unfold fromAtom at h
+  split at h
+  · cases h
+    right
+    show 0 ∉ (if f.ringSizes then sortDedup a.ringSizes else [])
+    split
+    · intro hm; exact h0 ((mem_sortDedup _ _).mp hm)
+    · simp
+  · cases h
+
+/-- **fromAtom_reflexive**: a query atom built from a molecule atom with any choice of the five flags matches that atom
+    (ring sizes of real atoms are ≥ 3, in particular never 0) -/
+theorem fromAtom_reflexive (a : MAtom) (f : FromAtomFlags) (q : QAtom) (h0 : 0 ∉ a.ringSizes)
+    (h : fromAtom a f = some q) : pyEq q a = true := by
+  have hq := fromAtom_wf a f q h0 h
+  unfold fromAtom at h
+  split at h
+  · cases h
+    unfold pyEq
+    simp only [bne_self_eq_false, Bool.false_eq_true, if_false]
+    rw [extendedTail_true _ _ _ hq]
+    refine ⟨rfl, rfl, Or.inr (Or.inr rfl), ?_, ?_, ?_, ?_, ?_⟩
+    · simp only; split <;> simp [Allowed]
+    · simp only; split <;> simp [Allowed]
+    · simp only
+      split
+      · cases hr : a.ringSizes with
+        | nil => left; simp [sortDedup]
+        | cons r t =>
+          right; right
+          refine ⟨fun hm => h0 (hr ▸ (mem_sortDedup _ _).mp hm), r, (mem_sortDedup _ _).mpr (by simp), by simp⟩
+      · left; rfl
+    · simp only
+      split
+      · cases a.implH <;> simp [HAllowed]
+      · simp [HAllowed]
+    · simp only; split <;> simp [Allowed]
+  · cases h
+
+example : fromAtom { z := 6, ringSizes := [5, 6], neighbors := 3, implH := some 0 }
+    { neighbors := true, ringSizes := true, hydrogens := true } =
+    some { kind := .element 6 none, neighbors := [3], ringSizes := [5, 6], implH := [0] } := by decide +kernel
+
+/-- ring sizes of an atom = lengths of the SSSR rings through it -/
+theorem ring_sizes_spec (sssr : List (List Nat)) (n s : Nat) :
+    s ∈ ringSizesOf sssr n ↔ ∃ r ∈ sssr, n ∈ r ∧ r.length = s := by
+  unfold ringSizesOf
+  rw [mem_sortDedup]
+  simp only [List.mem_map, List.mem_filter, List.contains_iff_mem]
+  constructor
+  · rintro ⟨r, ⟨hr, hn⟩, hl⟩; exact ⟨r, hr, hn, hl⟩
+  · rintro ⟨r, hr, hn, hl⟩; exact ⟨r, ⟨hr, hn⟩, hl⟩
+
+/-- a bond is marked `in_ring` iff its two atoms share an SSSR ring -/
+theorem bond_in_ring_spec (sssr : List (List Nat)) (n m : Nat) :
+    bondInRing sssr n m = true ↔ ∃ r ∈ sssr, n ∈ r ∧ m ∈ r := by
+  unfold bondInRing
+  simp [List.any_eq_true, List.contains_iff_mem]
+
+/-- not-in-ring (`!R`) matches exactly the atoms through which no SSSR ring passes -/
+theorem not_in_ring_spec (sssr : List (List Nat)) (n : Nat) :
+    ringRejects [0] (ringSizesOf sssr n) = false ↔ ∀ r ∈ sssr, n ∉ r := by
+  have : ringSizesOf sssr n = [] ↔ ∀ r ∈ sssr, n ∉ r := by
+    constructor
+    · intro h r hr hn
+      have := (ring_sizes_spec sssr n r.length).mpr ⟨r, hr, hn, rfl⟩
+      rw [h] at this; cases this
+    · intro h
+      cases hl : ringSizesOf sssr n with
+      | nil => rfl
+      | cons s t =>
+        have hs : s ∈ ringSizesOf sssr n := by rw [hl]; simp
+        obtain ⟨r, hr, hn, _⟩ := (ring_sizes_spec sssr n s).mp hs
+        exact absurd hn (h r hr)
+  rw [← this]
+  unfold ringRejects
+  simp
 
 end ChythonModel.Props.C08
